@@ -3,6 +3,7 @@ import SqlgrepModel.Drivers.Eval
 import SqlgrepModel.Drivers.Run
 import SqlgrepModel.Drivers.Reader
 import SqlgrepModel.Drivers.Print
+import SqlgrepModel.Drivers.Extract
 /- Line protocol driver: `<kind> <payload…>` per line in, one answer line out. -/
 open Sqlgrep
 
@@ -19,6 +20,7 @@ def dispatch (line : String) : String :=
     | "linecount" => Drivers.Reader.handleLines false args
     | "joinlines" => Drivers.Reader.handleJoin args
     | "print" => Drivers.Print.handle args
+    | "extract" => Drivers.Extract.handle args
     | _ => "unknown-kind"
   | _ => "bad-line"
 
